@@ -301,10 +301,39 @@ BASE = (1, 3, 6, 1, 2, 1, 2)
 MIB = [BASE + (1, i) for i in range(1, 8)]
 
 
-def session_events(driver, cfg, script):
+def inject_send_fault(session, fail_at):
+    """Environment deviation: the sender callable handed to the session's real `_send` for datagram number `fail_at`
+    answers EAGAIN once (output buffer full) and works when called again."""
+    orig = session._send
+    state = {"n": 0}
+
+    async def patched(sender):
+        i = state["n"]
+        state["n"] += 1
+        if i != fail_at:
+            return await orig(sender)
+        first = [True]
+
+        def faulty():
+            if first[0]:
+                first[0] = False
+                raise BlockingIOError(11, "injected EAGAIN")
+            return sender()
+
+        return await orig(faulty)
+
+    session._send = patched
+
+
+def session_events(driver, cfg, script, send_fault=None):
     """Run client operations with a recording policer; returns the interleaved event string."""
     pm = policer_mod()
     events = []
+    usm_agent = None
+    if cfg.version == "v3" and cfg.discover:
+        from . import c13
+
+        usm_agent = c13.UsmAgent(cfg, c13.CLOCKS[0])
 
     class Rec(pm.BasePolicer):
         def get_timeout(self, ts):
@@ -313,7 +342,9 @@ def session_events(driver, cfg, script):
 
     def responder(data, idx):
         events.append("D")
-        req = drivers.open_request(cfg, data)
+        if usm_agent is not None:
+            return usm_agent(data, idx)
+        req = drivers.open_request(cfg, data, strict=False, check_mac=False)
         if req.pdu_tag == rb.PDU_GETNEXT:
             nxt = [o for o in MIB if o > req.oids[0]]
             o = nxt[0] if nxt else (1, 3, 7)
@@ -331,7 +362,9 @@ def session_events(driver, cfg, script):
         try:
             s = w.session
             for op in script:
-                if op == "get":
+                if op == "enter":
+                    s.__enter__()
+                elif op == "get":
                     s.get(rb.oid_str(MIB[0]))
                 elif op == "get_many":
                     s.get_many([rb.oid_str(MIB[0]), rb.oid_str(MIB[1])])
@@ -351,8 +384,12 @@ def session_events(driver, cfg, script):
     else:
 
         async def client(s):
+            if send_fault is not None:
+                inject_send_fault(s, send_fault)
             for op in script:
-                if op == "get":
+                if op == "enter":
+                    await s.__aenter__()
+                elif op == "get":
                     await s.get(rb.oid_str(MIB[0]))
                 elif op == "get_many":
                     await s.get_many([rb.oid_str(MIB[0]), rb.oid_str(MIB[1])])
@@ -378,7 +415,7 @@ def work_sessions(chunk):
     res = common.Result()
     for case in chunk:
         cfg = Cfg.from_desc(case["cfg"])
-        ev = session_events(case["driver"], cfg, case["script"])
+        ev = session_events(case["driver"], cfg, case["script"], case.get("send_fault"))
         res.count("session_scripts")
         res.count("calls", ev.count("D"))
         res.distinct()
@@ -386,7 +423,7 @@ def work_sessions(chunk):
         n = ev.count("D")
         if ev != "WD" * n or n == 0:
             res.violation(
-                "session/%s/%s/%s" % (case["driver"], cfg.version, "+".join(case["script"])),
+                "session/%s/%s/%s%s" % (case["driver"], cfg.name, "+".join(case["script"]), "/EAGAIN-on-send" if case.get("send_fault") is not None else ""),
                 "policer waits (W) and datagrams (D) interleave as %r, expected one wait before every datagram" % ev,
                 case,
             )
@@ -409,7 +446,7 @@ def replay(case):
         rels, delays, prob = run_path(case["delta"], case["t0"], case["gaps"])
         return {"releases": rels, "delays": delays, "problem": prob}
     if "script" in case:
-        return {"events": session_events(case["driver"], Cfg.from_desc(case["cfg"]), case["script"])}
+        return {"events": session_events(case["driver"], Cfg.from_desc(case["cfg"]), case["script"], case.get("send_fault"))}
     r = common.Result()
     work_misc([0])
     return {"misc": "re-run"}
@@ -455,6 +492,16 @@ def run(tier):
                 if "getbulk" in sc and cfg.version == "v1":
                     continue
                 sess.append({"driver": driver, "cfg": cfg.describe(), "script": sc})
+        # engine-id discovery: session entry sends two datagrams (discovery, time sync)
+        for cfg in (Cfg("v3", discover=True), Cfg("v3", auth=2, priv=2, discover=True), Cfg("v3", auth=1, discover=True, key_type=2)):
+            for sc in (["enter", "get"], ["enter", "refresh", "get_many"], ["enter", "getbulk"]):
+                sess.append({"driver": driver, "cfg": cfg.describe(), "script": sc})
+    # environment deviation (one per run): EAGAIN on the k-th send of the async client, for every k
+    for cfg in (Cfg("v2c"), Cfg("v3", auth=2, priv=2, discover=True)):
+        for sc, n in ((["get", "get_many", "get"], 3), (["getnext"], 8), (["getbulk", "get"], 4), (["fetch"], 3)):
+            pre = ["enter"] if cfg.discover else []
+            for k in range(n + len(pre) * 2):
+                sess.append({"driver": "async", "cfg": cfg.describe(), "script": pre + sc, "send_fault": k})
     common.run_cases(rec, work_sessions, sess, chunk=4)
     states = rec.counters["bfs_states"] + rec.counters["paths"]
     return rec.finish(
